@@ -176,7 +176,7 @@ def _base(version):
 
 
 def run_loopback(version, action, request_obj, behave, suppress=False, skip=False, uid="a-id", async_validation=False,
-                 handler_async=True):
+                 handler_async=True, route_skip=False):
     """A calls request_obj; B's handler for `action` records its keywords and does behave(kwargs) (returns a
     result object or raises). Returns dict(call, kwargs, reply, outcome)."""
     import ocpp.messages as M
@@ -195,7 +195,7 @@ def run_loopback(version, action, request_obj, behave, suppress=False, skip=Fals
                 seen["kwargs"] = copy.deepcopy(kwargs)
                 return behave(kwargs)
         handler.__name__ = "handler"
-        Bcls = type("B", (_base(version),), {"handler": on(action)(handler)} if behave is not None else {})
+        Bcls = type("B", (_base(version),), {"handler": on(action, skip_schema_validation=route_skip)(handler)} if behave is not None else {})
         A = _base(version)("A", pipe.end("a"), response_timeout=3)
         B = Bcls("B", pipe.end("b"), response_timeout=3)
         ta, tb = asyncio.ensure_future(A.start()), asyncio.ensure_future(B.start())
